@@ -62,6 +62,7 @@ GRV_CMD(shape) {
         for (auto &t : texts) {
             if (fresh) { if (gf) gr_font_destroy(gf); gr_face_destroy(face); face = viaops ? tfc.make(opts) : gr_make_file_face(font.c_str(), opts); gf = ppm > 0 ? gr_make_font(float(ppm), face) : 0; }
             set_case("shape %s seg=%ld opts=%d dir=%d ppm=%g", id.c_str(), k, opts, dir, ppm);
+            GRV_WATCHDOG;
             gr_segment *seg = gr_make_seg(gf, face, 0, 0, gr_utf32, t.data(), t.size(), dir);
             ++segs; ++g_cases;
             SegP p = project(seg, face, gf, true);
